@@ -549,7 +549,7 @@ func RunCase(r *prng.R, p *Profile, id string) *sexp.S {
 	for i, t := range g.titles {
 		n := &ast.Node{Title: t}
 		if p.Untracked && r.Intn(3) == 0 && (i > 0 || r.Intn(2) == 0) {
-			n.Tracking = r.Pick("never", "always")
+			n.Tracking = r.Pick("never", "always", "never", "always", "Never", "on", "always1", "NEVER") // only the exact word never switches counting off
 		}
 		if p.Untracked && r.Intn(4) == 0 {
 			// headers that mean nothing to the runner, an overridden title, a tracking header that is overridden
